@@ -279,6 +279,15 @@ Qed.
 Lemma zseq_length n : length (zseq n) = n.
 Proof. unfold zseq. rewrite map_length, seq_length. reflexivity. Qed.
 
+Lemma zcount_zseq x n : zcount x (zseq n) = if (0 <=? x) && (x <? Z.of_nat n) then 1%nat else 0%nat.
+Proof.
+  destruct (Z.leb_spec 0 x), (Z.ltb_spec x (Z.of_nat n)); cbn [andb].
+  - unfold zseq. apply (zcount_map_seq_1 x Z.of_nat 0 n (Z.to_nat x)); lia.
+  - apply zcount_0. rewrite In_zseq. lia.
+  - apply zcount_0. rewrite In_zseq. lia.
+  - apply zcount_0. rewrite In_zseq. lia.
+Qed.
+
 Lemma Inv_init T : Inv T [] 0.
 Proof. constructor; [reflexivity | intros k b [] | intros k kb H; lia]. Qed.
 
